@@ -481,7 +481,7 @@ func (r *run) malformed(op map[string]any, ln *Line) {
 		res := srv.AcceptOne(8 * time.Second)
 		r.record(ln, res)
 		<-done
-	case "nontls", "silentClose", "dropMidHello", "dropAfterHello", "resetMidHello", "resetAfterHello":
+	case "nontls", "silentClose", "dropMidHello", "dropAfterHello", "resetMidHello", "resetAfterHello", "rawSslv2", "rawOversizeRecord", "rawHttp", "rawBadVersion":
 		c, err := net.DialTimeout(network, srv.Addr, 2*time.Second)
 		if err != nil {
 			ln.Res = "harness-error"
@@ -493,6 +493,14 @@ func (r *run) malformed(op map[string]any, ln *Line) {
 			junk := make([]byte, 1+r.rng.Intn(300))
 			r.rng.Read(junk)
 			c.Write(junk)
+		case "rawSslv2":
+			c.Write(append([]byte{0x80, 0x2e, 0x01, 0x00, 0x02}, make([]byte, 44)...))
+		case "rawOversizeRecord":
+			c.Write([]byte{0x16, 0x03, 0x01, 0xff, 0xff, 0x01, 0x00})
+		case "rawHttp":
+			c.Write([]byte("GET / HTTP/1.1\r\nHost: x\r\n\r\n"))
+		case "rawBadVersion":
+			c.Write([]byte{0x16, 0x09, 0x09, 0x00, 0x05, 0x01, 0x00, 0x00, 0x01, 0x00})
 		case "dropMidHello", "dropAfterHello", "resetMidHello", "resetAfterHello":
 			hello := captureClientHello(r.malformedProtos("b64rand", pfx))
 			if strings.HasPrefix(cls, "reset") {
